@@ -21,10 +21,12 @@ package main
 
 import (
 	"fmt"
+	"encoding/json"
 	"math/big"
 	"math/rand"
 	"reflect"
 	"regexp"
+	"sort"
 	"strconv"
 	"strings"
 
@@ -34,6 +36,7 @@ import (
 	"github.com/honeycombio/refinery/metrics"
 	"github.com/honeycombio/refinery/sample"
 	"github.com/honeycombio/refinery/types"
+	"github.com/tidwall/gjson"
 )
 
 // ---------------------------------------------------------------- values
@@ -47,12 +50,26 @@ type val struct {
 	items []val
 }
 
+var (
+	m2x  = map[string]any{"y": int64(5), "z": "s"}
+	m3xy = map[string]any{"z": true, "n": nil, "f": 1.5}
+	m3x  = map[string]any{"y": m3xy}
+)
+
+// "other" values: lists and (nested) maps.  Map ids start with M; inner maps have ids of their own.
 var others = map[string]any{
-	"L0": []any{},
-	"L1": []any{int64(1), "a"},
-	"M0": map[string]any{},
-	"M1": map[string]any{"k": int64(1)},
+	"L0":   []any{},
+	"L1":   []any{int64(1), "a"},
+	"M0":   map[string]any{},
+	"M1":   map[string]any{"k": int64(1)},
+	"M2":   map[string]any{"x": m2x, "k": "v"},
+	"M2x":  m2x,
+	"M3":   map[string]any{"status": int64(200), "x": m3x, "a": int64(7)},
+	"M3x":  m3x,
+	"M3xy": m3xy,
 }
+
+var otherIDs = []string{"L0", "L1", "M0", "M1", "M2", "M2x", "M3", "M3x", "M3xy"}
 
 func ratStr(f float64) string {
 	r := new(big.Rat)
@@ -173,7 +190,7 @@ func tokOfAny(a any) string {
 		}
 		return "b:0"
 	}
-	for _, id := range []string{"L0", "L1", "M0", "M1"} {
+	for _, id := range otherIDs {
 		if reflect.DeepEqual(others[id], a) {
 			return "o:" + id
 		}
@@ -219,6 +236,49 @@ func (e *exts) str(s string) {
 	}
 }
 
+// jsonStr: what gjson returns as String() for a path that ends on this value in the JSON encoding
+// of its container (encoding/json + gjson themselves, on a container built here)
+func jsonStr(a any) (string, bool) {
+	b, err := json.Marshal(map[string]any{"k": a})
+	if err != nil {
+		return "", false
+	}
+	r := gjson.Get(string(b), "k")
+	return r.String(), r.Exists()
+}
+
+// span: for a span-side value, its JSON text and, for maps, their entries (recursively)
+func (e *exts) span(v val) {
+	a := v.goVal(false)
+	if js, ok := jsonStr(a); ok {
+		e.emit("jstr %s = %s", v.tok(), kit.Enc(js))
+		e.value(val{k: 's', s: js}, false) // a nested hit reaches the matchers as this string
+	} else {
+		e.emit("jstr %s = err", v.tok())
+	}
+	if m, ok := a.(map[string]any); ok {
+		keys := make([]string, 0, len(m))
+		for k := range m {
+			keys = append(keys, k)
+		}
+		sort.Strings(keys)
+		ents := make([]string, 0, len(keys))
+		for _, k := range keys {
+			ents = append(ents, kit.Enc(k)+"~"+tokOfAny(m[k]))
+		}
+		if len(ents) == 0 {
+			ents = []string{"-"}
+		}
+		e.emit("map %s = %s", v.s, strings.Join(ents, ","))
+		for _, k := range keys {
+			if iv, ok := parseVal(tokOfAny(m[k])); ok {
+				e.value(iv, false)
+				e.span(iv)
+			}
+		}
+	}
+}
+
 // value: fmt.Sprintf("%v", v) and the parsers on every string the code can derive from v
 func (e *exts) value(v val, cond bool) string {
 	f := fmt.Sprintf("%v", v.goVal(cond))
@@ -257,13 +317,14 @@ type spanSpec struct {
 }
 
 type runner struct {
-	rules []ruleSpec
-	spans []spanSpec
+	nested bool
+	rules  []ruleSpec
+	spans  []spanSpec
 }
 
 type comp struct{}
 
-func (comp) NewCase(h []string) kit.Runner { return &runner{} }
+func (comp) NewCase(h []string) kit.Runner { return &runner{nested: kit.KV(h, "nested") == "1"} }
 
 func (r *runner) Close() {}
 
@@ -332,6 +393,7 @@ func (r *runner) Do(op []string) (string, bool) {
 			sp.keys = append(sp.keys, name)
 			sp.vals = append(sp.vals, v)
 			e.value(v, false)
+			e.span(v)
 		}
 		r.spans = append(r.spans, sp)
 		return "", false
@@ -363,7 +425,7 @@ func downCfg(d string) (*config.RulesBasedDownstreamSampler, bool) {
 
 func (r *runner) eval(seed int64) string {
 	// the real configuration
-	cfg := &config.RulesBasedSamplerConfig{}
+	cfg := &config.RulesBasedSamplerConfig{CheckNestedFields: r.nested}
 	var forget []*config.RulesBasedSamplerRule
 	for _, rs := range r.rules {
 		rule := &config.RulesBasedSamplerRule{Name: rs.name, SampleRate: rs.rate, Drop: rs.drop, Scope: rs.scope}
@@ -411,9 +473,21 @@ func (r *runner) eval(seed int64) string {
 	subjects := map[string]bool{}
 	subjects[e.value(val{k: 'n'}, false)] = true
 	subjects[e.value(val{k: 'i', i: int64(len(spans))}, false)] = true
+	var addSubjects func(a any)
+	addSubjects = func(a any) {
+		subjects[fmt.Sprintf("%v", a)] = true
+		if js, ok := jsonStr(a); ok {
+			subjects[js] = true
+		}
+		if m, ok := a.(map[string]any); ok {
+			for _, iv := range m {
+				addSubjects(iv)
+			}
+		}
+	}
 	for _, ss := range r.spans {
 		for _, v := range ss.vals {
-			subjects[fmt.Sprintf("%v", v.goVal(false))] = true
+			addSubjects(v.goVal(false))
 		}
 	}
 	for _, rs := range r.rules {
@@ -452,8 +526,8 @@ func (r *runner) eval(seed int64) string {
 	// the pieces, as the real code computes them
 	var mbits, matrix strings.Builder
 	for i, rule := range cfg.Rules {
-		mbits.WriteString(b01(sample.VerifRulesMatchTrace(trace, rule, false)))
-		mbits.WriteString(b01(sample.VerifRulesMatchSpan(trace, rule, false)))
+		mbits.WriteString(b01(sample.VerifRulesMatchTrace(trace, rule, r.nested)))
+		mbits.WriteString(b01(sample.VerifRulesMatchSpan(trace, rule, r.nested)))
 		if i > 0 {
 			matrix.WriteByte('|')
 		}
@@ -465,7 +539,7 @@ func (r *runner) eval(seed int64) string {
 				if k > 0 {
 					matrix.WriteByte(',')
 				}
-				v, ex, root, m := sample.VerifRulesCondOnSpan(trace, sp, c, false)
+				v, ex, root, m := sample.VerifRulesCondOnSpan(trace, sp, c, r.nested)
 				fl := 0
 				if ex {
 					fl |= 1
@@ -605,7 +679,16 @@ func genCondValue(r *kit.Rng, op, dt string) val {
 
 var plainFields = []string{"a", "b", "c", "d"}
 
+var nestedPaths = []string{"c.x", "c.x.y", "c.x.y.z", "c.x.y.f", "c.x.y.n", "c.status", "c.k", "d.x.z", "d.k", "c.q", "c.x.q", "c.k.v", "root.x", "root.k", "a.k"}
+
 func genFieldName(r *kit.Rng) string {
+	if genNested && r.Chance(38) {
+		p := pickStr(r, nestedPaths)
+		if r.Chance(30) {
+			return config.RootPrefix + p
+		}
+		return p
+	}
 	switch r.Pick(58, 25, 8, 3, 2, 1, 1, 2) {
 	case 0:
 		return pickStr(r, plainFields)
@@ -700,6 +783,9 @@ func genRule(r *kit.Rng, idx int) []string {
 // is exercised at its boundary with int, float and numeric-string operands on either side.
 var genThresholds []float64
 
+// genNested: the case being generated has CheckNestedFields on
+var genNested bool
+
 func noteThresholds(v val) {
 	switch v.k {
 	case 'i':
@@ -721,6 +807,9 @@ var nearDeltas = []float64{-1, -0.5, -0.25, -0.125, 0, 0, 0.125, 0.25, 0.5, 1, 1
 
 // spanValue: a field value; about a third of them sit at or next to a rule threshold.
 func spanValue(r *kit.Rng) val {
+	if genNested && r.Chance(30) {
+		return val{k: 'o', s: []string{"M2", "M3", "M3", "M1", "M3x", "M2x"}[r.Intn(6)]}
+	}
 	if len(genThresholds) == 0 || !r.Chance(35) {
 		return anyScalar(r, false)
 	}
@@ -752,6 +841,9 @@ func genTrace(r *kit.Rng) []string {
 		if r.Chance(5) {
 			parts = append(parts, kit.Enc(config.RootPrefix+"a")+"="+anyScalar(r, false).tok())
 		}
+		if genNested && r.Chance(12) { // a field literally called "root": the nested path root.x leads into it
+			parts = append(parts, "root="+val{k: 'o', s: []string{"M2", "M3", "M1"}[r.Intn(3)]}.tok())
+		}
 		if r.Chance(3) {
 			parts = append(parts, kit.Enc(string(config.NUM_DESCENDANTS))+"="+anyScalar(r, false).tok())
 		}
@@ -763,6 +855,7 @@ func genTrace(r *kit.Rng) []string {
 func (comp) Gen(r *kit.Rng, maxLen int, tier string) kit.Case {
 	var ops []string
 	genThresholds = genThresholds[:0]
+	genNested = r.Chance(45)
 	nr := 1 + r.Intn(6)
 	for i := 0; i < nr; i++ {
 		ops = append(ops, genRule(r, i)...)
@@ -782,7 +875,7 @@ func (comp) Gen(r *kit.Rng, maxLen int, tier string) kit.Case {
 			ops = append(ops, fmt.Sprintf("eval seed=%d", r.Intn(1000000)))
 		}
 	}
-	return kit.Case{Header: "nested=0", Ops: ops}
+	return kit.Case{Header: "nested=" + b01(genNested), Ops: ops}
 }
 
 // ---------------------------------------------------------------- facts
